@@ -66,6 +66,8 @@ fn families() -> Vec<Family> {
         f("reads-heap-slot-77", vec![LoadImm(77)]),
         // fails inside a loop body (stack underflow at the second instruction of the body)
         f("fails-inside-loop", vec![pi(1), Loop(3, 2), Add, Add]),
+        // a heap address beyond 16 bits (fails: addresses are 16-bit; must not be read as address 1, the transaction hash)
+        f("loads-heap-address-65537", vec![pi(65537), Load]),
     ]
 }
 
